@@ -537,6 +537,8 @@ def _merge_obls(an, f, agg, undecided, stats):
                 agg[key] = [True, FRef(o.func), o.line, "", True]
             continue
         if not o.exact:
+            if __import__("os").environ.get("LIN_SHOWUNDEC"):
+                print("  [undecided] %s: %s" % (key, o.detail[:500]), flush=True)
             undecided.add(key)
             if cur is None:
                 agg[key] = [True, FRef(o.func), o.line, "", False]
@@ -1044,6 +1046,120 @@ def run_lincodec(prog, ctx=None):
         raise Broken("LINCODEC: only %d encoder functions found" % len(roots))
     _G.update(prog=prog, roots=roots, fileset=set(files))
     parts = _parallel(_codec_root, len(roots))
+    _collect(res, parts)
+    return res
+
+
+# =====================================================================================================================
+# LINMSG (C17): the fragment walkers stay inside the fragment list and inside each fragment
+# =====================================================================================================================
+# (function, parameter) -> parameter holding the element count: arrays of `struct iovec` as the headers document them
+MSG_ARRAYS = {
+    "mpt_memchr": {"data": ("records", "ndat")}, "mpt_memrchr": {"data": ("records", "ndat")},
+    "mpt_memfcn": {"data": ("records", "ndat")}, "mpt_memrfcn": {"data": ("records", "ndat")},
+    "mpt_memstr": {"data": ("records", "ndat"), "match": ("bytes", "mlen")}, "mpt_memrstr": {"data": ("records", "ndat"), "match": ("bytes", "mlen")},
+    "mpt_memtok": {"data": ("records", "ndat")},
+    "mpt_memcpy": {"src": ("records", "nsrc"), "dest": ("records", "ndest")},
+    "mpt_message_read": {"dest": ("bytes", "len")},
+}
+MSG_RECORDS = ("mpt_message", "mpt::message")
+
+
+def message_inv(an, st, obj, prefix, assume):
+    """a message: `used` bytes at `base`, then `clen` further fragments at `cont`"""
+    used = st.env.get(("f", obj, prefix + "used"))
+    clen = st.env.get(("f", obj, prefix + "clen"))
+    if assume:
+        if obj is None:
+            return None
+        if isinstance(used, Lin):
+            st.add(Lin.const(PTRDIFF_MAX) - used)
+            st.env[("f", obj, prefix + "base")] = Ptr(Region("*%s%sbase" % (obj, prefix), used, "contract"), Lin.const(0), True)
+        if isinstance(clen, Lin):
+            R = an.prog.records.get("iovec") or {}
+            rsz = R.get("size", 16) or 16
+            st.add(Lin.const(PTRDIFF_MAX // rsz) - clen)
+            reg = Region("*%s%scont" % (obj, prefix), clen.scale(rsz), "contract")
+            reg.rec = "iovec"
+            st.env[("f", obj, prefix + "cont")] = Ptr(reg, Lin.const(0), True)
+        return None
+    out = []
+    base = st.env.get(("f", obj, prefix + "base"))
+    cont = st.env.get(("f", obj, prefix + "cont"))
+    if not isinstance(used, Lin) or not isinstance(clen, Lin):
+        return [("used and clen known", False)]
+    if st.entails_eq(used, Lin.const(0)):
+        out.append(("used bytes at base", True))
+    elif isinstance(base, Ptr) and base.region is not None:
+        out.append(("used bytes at base", st.entails(base.off) and st.entails(base.region.size - base.off - used)))
+    else:
+        out.append(("used bytes at base", None))
+    if st.entails_eq(clen, Lin.const(0)):
+        out.append(("clen fragments at cont", True))
+    elif isinstance(cont, Ptr) and cont.region is not None and cont.region.rec:
+        rsz = (an.prog.records.get(cont.region.rec) or {}).get("size", 16) or 16
+        out.append(("clen fragments at cont", st.entails(cont.off) and st.entails(cont.region.size - cont.off - clen.scale(rsz))))
+    else:
+        out.append(("clen fragments at cont", None))
+    return out
+
+
+def _msg_root(i):
+    prog, roots, fileset = _G["prog"], _G["roots"], _G["fileset"]
+    f = roots[i]
+    agg, undecided, stats = {}, set(), {}
+    invs = {"iovec": iovec_inv}
+    invs.update({r: message_inv for r in MSG_RECORDS})
+    an = LinAnalysis(prog, invariants=invs, contracts=MSG_ARRAYS)
+    an.max_returns = 12
+    an.state_budget = 6000
+    an.peel = True
+    an.track_wraps = True
+    an.policy = (lambda fr, g: "inline" if g.file in fileset else "modular")
+    entry, fr, outs = an.analyse_root(f)
+    for k in ("states", "paths", "inlined"):
+        stats[k] = an.stats.get(k, 0)
+    _merge_obls(an, f, agg, undecided, stats)
+    if an.over_budget:
+        undecided.add("LIN:%s:budget" % f.name)
+        return {"agg": agg, "undecided": undecided, "stats": stats, "assumed": an.assumed, "cut": f.name}
+    # a message handed in by pointer is a message again when the function returns
+    for p in f.params:
+        T = f.T(p["t"])
+        to = f.T(T.get("to")) if T.get("k") == "ptr" else {}
+        if to.get("k") != "record" or to.get("name") not in MSG_RECORDS or to.get("const"):
+            continue
+        obj = "P." + p["n"]
+        for cl in ("used bytes at base", "clen fragments at cont"):
+            ok, det, seen = True, "", 0
+            for st, v in outs:
+                for text, good in message_inv(an, st, obj, "", False):
+                    if text != cl:
+                        continue
+                    seen += 1
+                    if good is None or (not good and st.joined):
+                        undecided.add("LIN:%s:MSGINV:%s" % (f.name, cl))
+                    elif not good and ok:
+                        ok = False
+                        det = "at return of %s the message *%s is not shown to hold its invariant '%s' (used=%r clen=%r base=%r cont=%r; path %s)" % (
+                            f.name, p["n"], cl, st.env.get(("f", obj, "used")), st.env.get(("f", obj, "clen")), st.env.get(("f", obj, "base")),
+                            st.env.get(("f", obj, "cont")), " / ".join(st.trail[-8:]))
+            if seen:
+                agg["LIN:%s:MSGINV:%s" % (f.name, cl)] = [ok, FRef(f), f.line, det, True]
+    return {"agg": agg, "undecided": undecided, "stats": stats, "assumed": an.assumed, "cut": None}
+
+
+def run_linmsg(prog, ctx=None):
+    res = Result("LINMSG")
+    files = sorted(x for x in (ctx.get("files", []) if ctx else []) if x.startswith("mptcore/message/") and x.endswith(".c"))
+    roots = sorted(entry_points(prog, files), key=lambda f: (f.file, f.line, f.name))
+    if len(roots) < 10:
+        raise Broken("LINMSG: only %d message functions found" % len(roots))
+    missing = [n for n in MSG_ARRAYS if not any(r.name == n for r in roots)]
+    if missing:
+        raise Broken("LINMSG: functions of the contract table not found: %s" % ", ".join(missing))
+    _G.update(prog=prog, roots=roots, fileset=set(files))
+    parts = _parallel(_msg_root, len(roots))
     _collect(res, parts)
     return res
 
